@@ -78,7 +78,7 @@ func runSteps(t vkit.TB, steps []Cell, whole Case) (sums []string, classes []str
 			return sums, classes, false
 		}
 		c := steps[i]
-		vkit.Case(res.class, res.nontriv, fmt.Sprintf("%s|%s|%s|%s|%v|%v", c.Cmd, c.Identity, c.Claim, c.Target, c.AsResp, c.Pending))
+		vkit.Case(res.class, res.nontriv, fmt.Sprintf("%s|%s|%s|%s|%v|%v|%s", c.Cmd, c.Identity, c.Claim, c.Target, c.AsResp, c.Pending, c.BodyTarget))
 		if res.nontriv {
 			vkit.Sample(res.class, map[string]any{"cell": c, "outcome": trunc(res.summary, 300)})
 		}
@@ -129,6 +129,16 @@ func cellsOf(sp *spec, id string, draw int) []Cell {
 		b.Pending = true
 		return []Cell{a, b}
 	}
+	if sp.Type == packet.SOCKS5TunnelRequestCmd || sp.Type == packet.DNSResolve || sp.Type == packet.DNSQuery {
+		// the in-body target_client_id: the mapping's target (default), omitted, an unrelated online client, the listen client itself
+		out := []Cell{base}
+		for _, bt := range []string{"absent", "S", "L"} {
+			c := base
+			c.BodyTarget = bt
+			out = append(out, c)
+		}
+		return out
+	}
 	return []Cell{base}
 }
 
@@ -149,7 +159,7 @@ func TestMatrix(t *testing.T) {
 			}
 		}
 	}
-	vkit.Exhaustive("command type (13 registry + 8 special forms) x identity {none, challenged, L, T, S} x claim {empty, own, T, L} x pending {no, yes} for response forms", true)
+	vkit.Exhaustive("command type (13 registry + 8 special forms) x identity {none, challenged, L, T, S} x claim {empty, own, T, L} x pending {no, yes} for response forms x in-body target_client_id {mapping target, absent, S, L} for SOCKS5 / DNS requests", true)
 	if vkit.Shard() == 0 {
 		vkit.Extra("command_types_in_table", len(specs))
 	}
@@ -283,6 +293,9 @@ func genCell(t *rapid.T) Cell {
 		TokenIs:  rapid.SampledFrom([]string{"id", "secret"}).Draw(t, "tokenIs"),
 	}
 	sp := specOf(c.Cmd)
+	if sp.Type == packet.SOCKS5TunnelRequestCmd || ((sp.Type == packet.DNSResolve || sp.Type == packet.DNSQuery) && !sp.Resp) {
+		c.BodyTarget = rapid.SampledFrom([]string{"", "absent", "T", "S", "L", "S"}).Draw(t, "bodyTarget")
+	}
 	if sp.Resp {
 		c.Pending = rapid.Bool().Draw(t, "pending")
 	} else if sp.Type != packet.DNSResolve && sp.Type != packet.DNSQuery {
